@@ -71,3 +71,25 @@ Theorem C01_logic2_gate_by_gate : forall c (stim : nat -> bool), wf_netlist c ->
                        v o = prim_fn p (pinv false v (n_ins nd) 0) (pinv false v (n_ins nd) 1) (pinv false v (n_ins nd) 2) (pinv false v (n_ins nd) 3)
     end.
 Proof. exact KV.Proofs.SemCompose.logic2_gate_by_gate. Qed.
+
+(** End to end for the default options (c_reuse off, strip_forks off): the flat memory that SimOps.build lays out, after
+    executing the op list it schedules, holds at every observed slot exactly the value of the line feeding that output /
+    state element in THE gate-by-gate solution of the netlist -- schedule, allocator and memory map composed, no
+    certificate evaluation involved. *)
+From KV Require Import Model.SimOpsCert.
+From KV Require Proofs.EndToEnd.
+Theorem C01_end_to_end_default : forall V (sem : N -> V -> V -> V -> V -> V) (zero : V) c caps cmin so stim (m0 : fmem) v,
+  wf_netlist c -> comb_acyclic c -> (0 < cmin)%N -> KV.Proofs.EndToEnd.gates_known c ->
+  build c caps cmin false false = Some so ->
+  (forall x l, In x (so_init so) -> so_loc so x = Some l -> m0 l = init_env zero c stim x) ->
+  solution sem zero c stim v ->
+  forall p, In p (so_final so) ->
+    so_alias c so p < List.length (c_lines c) /\
+    (exists t, n_ins (get_node c (nth (p - (List.length (c_lines c) + 3 + List.length (s_nodes c))) (s_nodes c) 0)) = Some (so_alias c so p) :: t) /\
+    mread zero (so_loc so) (mexec sem zero (so_loc so) (so_ops so) m0) p = v (so_alias c so p).
+Proof. intros V sem zero. exact (KV.Proofs.EndToEnd.end_to_end_solution sem zero). Qed.
+
+Theorem C01_build_total : forall c caps cmin,
+  wf_netlist c -> (0 < cmin)%N -> List.length (c_lines c) <= List.length caps ->
+  exists so, build c caps cmin false false = Some so.
+Proof. exact KV.Proofs.EndToEnd.build_total. Qed.
